@@ -321,9 +321,19 @@ func genExhaustive(o *vh.Opts, r *vh.Rand, add func(n int, group string, s *vpSh
 				return
 			}
 			for _, sv := range []int{0, 3} {
-				for mode := 0; mode < 3; mode++ {
+				for mode := 0; mode < 5; mode++ {
 					var s *vpShape
 					switch mode {
+					case 3, 4: // genuine expels, exact count, but every sign fact is of a non-member (outsider / other spelling)
+						s = fromStates(n, kStuck, false, 670, st, -1, sv, 0)
+						s.RawFin = false
+						for i := range s.SFs {
+							if mode == 3 {
+								s.SFs[i].Node = outBase + i%nOuts
+							} else {
+								s.SFs[i].Node = aliasID(s.SFs[i].Node, 1+i%nAlias)
+							}
+						}
 					case 0: // as the ballotbox builds it: Finish() clears the majority and sets 100
 						s = fromStates(n, kStuck, false, 670, st, firstVote(st), sv, 0)
 						s.RawFin = false
